@@ -57,6 +57,33 @@ LOOP = '''            for i, charge_value in enumerate(charge_per_pixel):
                 array[pixel_index_ver[i], pixel_index_hor[i]] += charge_value
 '''
 HELP = "from pyxel.util import convert_unit\n"
+# --- text blocks of convert_array_to_df / create_charges, cut from the CURRENT source
+_c = src[CH]
+VCALL = _c[_c.index("        vertical_pixel_center_pos_1d = get_vertical_pixel_center_pos("):_c.index("        horizontal_pixel_center_pos_1d = get_horizontal_pixel_center_pos(")].rstrip("\n") + "\n"
+HCALL = _c[_c.index("        horizontal_pixel_center_pos_1d = get_horizontal_pixel_center_pos("):_c.index("        init_ver_pix_position_1d = ")].rstrip("\n") + "\n"
+VKW = "            num_rows=num_rows,\n            num_cols=num_cols,\n"
+_a = _c.index("        new_charges: Mapping[str, Sequence | np.ndarray] = {")
+COLDICT = _c[_a:_c.index("        }\n", _a) + len("        }\n")]
+COLPAIRS = [(k.value, ast.unparse(v)) for k, v in zip(ast.parse(COLDICT.strip().split("=", 1)[1].strip()).body[0].value.keys,
+                                                      ast.parse(COLDICT.strip().split("=", 1)[1].strip()).body[0].value.values)]
+COLKEYS = "(" + ", ".join(repr(k) for k, _ in COLPAIRS) + ",)"
+COLVALS = "(" + ", ".join(v for _, v in COLPAIRS) + ",)"
+_x = dict(COLPAIRS); _x["number"], _x["energy"] = _x["energy"], _x["number"]
+COLVALS_X = "(" + ", ".join(_x[k] for k, _ in COLPAIRS) + ",)"
+_kx = [k for k, _ in COLPAIRS]; _i1, _i2 = _kx.index("position_ver"), _kx.index("position_hor"); _kx[_i1], _kx[_i2] = _kx[_i2], _kx[_i1]
+COLKEYS_X = "(" + ", ".join(repr(k) for k in _kx) + ",)"
+COLVALS_SHORT = "(" + ", ".join(v for _, v in COLPAIRS[:1]) + ",)"
+_a = _c.index('        if particle_type == "e":')
+SIGN = _c[_a:_c.index('raise ValueError("Given charged particle type can not be simulated")\n', _a) + len('raise ValueError("Given charged particle type can not be simulated")\n')]
+GVER = "    init_ver_position = np.arange(0.0, num_rows, 1.0) * pixel_vertical_size\n    init_ver_position += pixel_vertical_size / 2.0\n"
+
+
+def addfile(rel, text):
+    def f(files):
+        files[rel] = text
+    return f
+
+
 CASES = [
  ("tuple-unpack rows/cols", "same|differs-ok", [ed(CH, "        array = np.zeros((self._geo.row, self._geo.col))", "        rows, cols = self._geo.row, self._geo.col\n        array = np.zeros((rows, cols))"),
      ed(CH, MASK, MASK.replace("self._geo.row", "rows").replace("self._geo.col", "cols"))]),
@@ -112,6 +139,61 @@ EXTRA2 = [
  ("empty(): helper method resets the array", "same", [ed(CH, "        self._array = np.zeros_like(self._array)\n\n    def frame_empty", "        self._clear_array()\n\n    def _clear_array(self) -> None:\n        self._array = np.zeros_like(self._array)\n\n    def frame_empty")]),
  ("to_xarray: copy taken first", "same", [ed(CH, "        data_2d: np.ndarray = self.array\n", "        data_2d: np.ndarray = self.array\n        snapshot = data_2d.copy()\n"), ed(CH, "            data_2d.copy(),\n", "            snapshot,\n")]),
  ("BREAK to_xarray: alias instead of copy", "differs-bad", [ed(CH, "        data_2d: np.ndarray = self.array\n", "        data_2d: np.ndarray = self.array\n        snapshot = data_2d\n"), ed(CH, "            data_2d.copy(),\n", "            snapshot,\n")]),
+ # ---- round 2d: call shapes (**display, functools.partial) and column mappings of create_charges
+ ("centres called with **dict of the shared keywords", "same", [ed(CH, VCALL, "        grid = {\"num_rows\": num_rows, \"num_cols\": num_cols}\n" + VCALL.replace(VKW, "            **grid,\n")),
+     ed(CH, HCALL, HCALL.replace(VKW, "            **grid,\n"))]),
+ ("centres called with **dict(k=v)", "same", [ed(CH, VCALL, VCALL.replace(VKW, "            **dict(num_cols=num_cols, num_rows=num_rows),\n"))]),
+ ("BREAK **dict with rows / cols crossed", "failclosed|differs-bad", [ed(CH, VCALL, "        grid = {\"num_rows\": num_cols, \"num_cols\": num_rows}\n" + VCALL.replace(VKW, "            **grid,\n"))]),
+ ("BREAK **dict updated in place before use", "failclosed", [ed(CH, VCALL, "        grid = {\"num_rows\": num_rows, \"num_cols\": num_cols}\n        junk = grid.update(num_rows=num_cols)\n" + VCALL.replace(VKW, "            **grid,\n"))]),
+ ("BREAK **dict rebound by |=", "failclosed", [ed(CH, VCALL, "        grid = {\"num_rows\": num_rows, \"num_cols\": num_cols}\n        grid |= {\"num_rows\": num_cols}\n" + VCALL.replace(VKW, "            **grid,\n"))]),
+ ("centres through functools.partial", "same", [ed(CH, HELP, "from functools import partial\n" + HELP),
+     ed(CH, VCALL, "        on_grid = partial(get_vertical_pixel_center_pos, num_rows=num_rows, num_cols=num_cols)\n        vertical_pixel_center_pos_1d = on_grid(pixel_vertical_size=pixel_vertical_size)\n")]),
+ ("zeros through functools.partial", "same", [ed(CH, HELP, "import functools\n" + HELP),
+     ed(CH, "        size: int = charge_number.size\n", "        size: int = charge_number.size\n        zeros = functools.partial(np.zeros, size)\n"), ed(CH, "init_energy=np.zeros(size)", "init_energy=zeros()")]),
+ ("BREAK partial binds the other pixel size", "failclosed|differs-bad", [ed(CH, HELP, "from functools import partial\n" + HELP),
+     ed(CH, VCALL, "        on_grid = partial(get_vertical_pixel_center_pos, num_rows=num_rows, pixel_vertical_size=pixel_horizontal_size)\n        vertical_pixel_center_pos_1d = on_grid(num_cols=num_cols)\n")]),
+ ("BREAK partial keyword overridden by the call", "failclosed|differs-bad", [ed(CH, HELP, "from functools import partial\n" + HELP),
+     ed(CH, VCALL, "        on_grid = partial(get_vertical_pixel_center_pos, num_rows=num_rows, num_cols=num_cols, pixel_vertical_size=pixel_vertical_size)\n        vertical_pixel_center_pos_1d = on_grid(num_rows=num_cols)\n")]),
+ ("BREAK a local function named partial", "failclosed", [ed(CH, HELP, "from functools import partial\n" + HELP + "\n\ndef partial(f, **kw):\n    return lambda **k: f(**k)\n"),
+     ed(CH, VCALL, "        on_grid = partial(get_vertical_pixel_center_pos, num_rows=num_rows, num_cols=num_cols)\n        vertical_pixel_center_pos_1d = on_grid(pixel_vertical_size=pixel_vertical_size)\n")]),
+ ("columns: dict(zip(module tuple, local tuple, strict=True))", "same", [ed(CH, HELP, HELP + "\n_COLS = " + COLKEYS + "\n"), ed(CH, COLDICT, "        values = " + COLVALS + "\n        new_charges = dict(zip(_COLS, values, strict=True))\n")]),
+ ("columns: dict(k=v)", "same", [ed(CH, COLDICT, "        new_charges = dict(" + ", ".join(f"{k}={v}" for k, v in COLPAIRS) + ")\n")]),
+ ("columns: particle sign by match, list built after", "same", [ed(CH, SIGN, "        match particle_type:\n            case \"e\":\n                sign = -1\n            case \"h\":\n                sign = +1\n            case _:\n                raise ValueError(\"Given charged particle type can not be simulated\")\n        charge = [sign] * elements\n")]),
+ ("BREAK columns: zip with number / energy values crossed", "failclosed", [ed(CH, HELP, HELP + "\n_COLS = " + COLKEYS + "\n"), ed(CH, COLDICT, "        values = " + COLVALS_X + "\n        new_charges = dict(zip(_COLS, values, strict=True))\n")]),
+ ("BREAK columns: module key tuple with two names crossed", "failclosed", [ed(CH, HELP, HELP + "\n_COLS = " + COLKEYS_X + "\n"), ed(CH, COLDICT, "        values = " + COLVALS + "\n        new_charges = dict(zip(_COLS, values, strict=True))\n")]),
+ ("BREAK columns: zip of displays of different lengths", "failclosed", [ed(CH, HELP, HELP + "\n_COLS = " + COLKEYS + "\n"), ed(CH, COLDICT, "        values = " + COLVALS_SHORT + "\n        new_charges = dict(zip(_COLS, values))\n")]),
+ ("BREAK columns: key tuple assigned twice at module level", "failclosed", [ed(CH, HELP, HELP + "\n_COLS = " + COLKEYS + "\n_COLS = _COLS[::-1]\n"), ed(CH, COLDICT, "        values = " + COLVALS + "\n        new_charges = dict(zip(_COLS, values, strict=True))\n")]),
+ ("BREAK columns: match capture rebinds a parameter", "failclosed", [ed(CH, SIGN, "        match particle_type:\n            case \"e\":\n                sign = -1\n            case \"h\":\n                sign = +1\n            case particles_per_cluster:\n                raise ValueError(\"Given charged particle type can not be simulated\")\n        charge = [sign] * elements\n")]),
+ ("BREAK columns: a local function named dict", "failclosed", [ed(CH, HELP, HELP + "\n\ndef dict(**kw):\n    return {}\n"), ed(CH, COLDICT, "        new_charges = dict(" + ", ".join(f"{k}={v}" for k, v in COLPAIRS) + ")\n")]),
+ # ---- round 2d: NamedTuple records for locals, helpers living in another module of the package, conditional expressions
+ ("record: NamedTuple for the grid, fields read", "same", [ed(CH, HELP, "from typing import NamedTuple\n" + HELP + "\n\nclass _Grid(NamedTuple):\n    rows: int\n    cols: int\n"),
+     ed(CH, VCALL, "        grid = _Grid(num_rows, cols=num_cols)\n" + VCALL.replace(VKW, "            num_rows=grid.rows,\n            num_cols=grid[1],\n"))]),
+ ("record: NamedTuple unpacked", "same", [ed(CH, HELP, "import typing\n" + HELP + "\n\nclass _Grid(typing.NamedTuple):\n    \"\"\"grid\"\"\"\n    rows: int\n    cols: int\n"),
+     ed(CH, VCALL, "        grid = _Grid(num_rows, num_cols)\n        n_r, n_c = grid\n" + VCALL.replace(VKW, "            num_rows=n_r,\n            num_cols=n_c,\n"))]),
+ ("BREAK record built with the fields crossed", "failclosed|differs-bad", [ed(CH, HELP, "from typing import NamedTuple\n" + HELP + "\n\nclass _Grid(NamedTuple):\n    rows: int\n    cols: int\n"),
+     ed(CH, VCALL, "        grid = _Grid(num_cols, num_rows)\n" + VCALL.replace(VKW, "            num_rows=grid.rows,\n            num_cols=grid.cols,\n"))]),
+ ("BREAK record class with the fields declared in the other order", "failclosed|differs-bad", [ed(CH, HELP, "from typing import NamedTuple\n" + HELP + "\n\nclass _Grid(NamedTuple):\n    cols: int\n    rows: int\n"),
+     ed(CH, VCALL, "        grid = _Grid(num_rows, num_cols)\n" + VCALL.replace(VKW, "            num_rows=grid.rows,\n            num_cols=grid.cols,\n"))]),
+ ("BREAK record class with a property overriding nothing but not plain", "failclosed", [ed(CH, HELP, "from typing import NamedTuple\n" + HELP + "\n\nclass _Grid(NamedTuple):\n    rows: int\n    cols: int\n\n    def __getitem__(self, i):\n        return 1\n"),
+     ed(CH, VCALL, "        grid = _Grid(num_rows, num_cols)\n" + VCALL.replace(VKW, "            num_rows=grid[0],\n            num_cols=grid[1],\n"))]),
+ ("BREAK a plain class that merely looks like a record", "failclosed", [ed(CH, HELP, HELP + "\n\nclass NamedTuple:\n    def __init__(self, *a):\n        self.rows = self.cols = 1\n\n\nclass _Grid(NamedTuple):\n    rows: int\n    cols: int\n"),
+     ed(CH, VCALL, "        grid = _Grid(num_rows, num_cols)\n" + VCALL.replace(VKW, "            num_rows=grid.rows,\n            num_cols=grid.cols,\n"))]),
+ ("geometry: centre helper moved to a sibling module (relative import)", "same", [addfile("pyxel/detectors/_centres.py", "import numpy as np\n\n_HALF = 0.5\n\n\ndef centres_1d(n, s):\n    out = np.arange(0.0, n, 1.0) * s\n    out += s * _HALF\n    return out\n"),
+     ed(GE, "from pyxel.util import get_size\n", "from pyxel.util import get_size\nfrom ._centres import centres_1d\n"), ed(GE, GVER, "    init_ver_position = centres_1d(num_rows, pixel_vertical_size)\n")]),
+ ("geometry: centre helper re-exported by a package, late absolute import", "same", [addfile("pyxel/detectors/_centres.py", "import numpy as np\n\n\ndef centres_1d(n, s):\n    return (np.arange(n) + 0.5) * s\n"),
+     addfile("pyxel/helpers/__init__.py", "from ..detectors._centres import centres_1d as pixel_centres\n"),
+     ed(GE, GVER, "    from pyxel.helpers import pixel_centres\n    init_ver_position = pixel_centres(s=pixel_vertical_size, n=num_rows)\n")]),
+ ("BREAK foreign centre helper without the half pixel", "differs-bad", [addfile("pyxel/detectors/_centres.py", "import numpy as np\n\n\ndef centres_1d(n, s):\n    return np.arange(n) * s\n"),
+     ed(GE, "from pyxel.util import get_size\n", "from pyxel.util import get_size\nfrom ._centres import centres_1d\n"), ed(GE, GVER, "    init_ver_position = centres_1d(num_rows, pixel_vertical_size)\n")]),
+ ("BREAK foreign centre helper: its module constant is assigned twice", "failclosed", [addfile("pyxel/detectors/_centres.py", "import numpy as np\n\n_HALF = 0.5\n_HALF = 1.0\n\n\ndef centres_1d(n, s):\n    return (np.arange(n) + _HALF) * s\n"),
+     ed(GE, "from pyxel.util import get_size\n", "from pyxel.util import get_size\nfrom ._centres import centres_1d\n"), ed(GE, GVER, "    init_ver_position = centres_1d(num_rows, pixel_vertical_size)\n")]),
+ ("BREAK foreign centre helper rebound in its module", "failclosed", [addfile("pyxel/detectors/_centres.py", "import numpy as np\n\n\ndef centres_1d(n, s):\n    return (np.arange(n) + 0.5) * s\n\n\ncentres_1d = lambda n, s: np.arange(n) * s\n"),
+     ed(GE, "from pyxel.util import get_size\n", "from pyxel.util import get_size\nfrom ._centres import centres_1d\n"), ed(GE, GVER, "    init_ver_position = centres_1d(num_rows, pixel_vertical_size)\n")]),
+ ("BREAK centre helper of another distribution", "failclosed", [addfile("otherpkg/centres.py", "import numpy as np\n\n\ndef centres_1d(n, s):\n    return (np.arange(n) + 0.5) * s\n"),
+     ed(GE, "from pyxel.util import get_size\n", "from pyxel.util import get_size\nfrom otherpkg.centres import centres_1d\n"), ed(GE, GVER, "    init_ver_position = centres_1d(num_rows, pixel_vertical_size)\n")]),
+ ("array property: conditional expression", "same", [ed(CH, PROP, "        self._array = self._array if self._frame.empty else self.convert_df_to_array()\n        return self._array\n")]),
+ ("BREAK array property: conditional expression adopting the frame column", "failclosed|differs-bad", [ed(CH, PROP, "        self._array = self._array if self._frame.empty else self._frame[\"number\"].values\n        return self._array\n")]),
+ ("BREAK empty(): `or` keeps the old array", "failclosed|differs-bad", [ed(CH, "        self._array = np.zeros_like(self._array)\n\n    def frame_empty", "        self._array = self._array or np.zeros_like(self._array)\n\n    def frame_empty")]),
 ]
 
 
